@@ -64,9 +64,6 @@ class C04(Check):
         @given(st.integers(0, 4).flatmap(lambda m: gens.core_grammar(nrules=5, depth=4, mode='bytes' if m == 0 else 'text')),
                st.data())
         def prop(g, data):
-            if runner.time_left() < 0:
-                res.truncated = True
-                return
             k = data.draw(st.integers(1, 3))
             idx = data.draw(st.permutations(range(len(IGN_POOL))))[:k]
             ign = []
@@ -92,6 +89,8 @@ class C04(Check):
                                         min_size=40, max_size=40))
             if g.mode == 'bytes':
                 longer = [t.encode('latin-1') for t in longer]
+            if runner.over_budget(res):
+                return
             res.hist['start_' + variant] += 1
             res.hist['mode_' + g.mode] += 1
             res.hist['n_ignores_%d' % k] += 1
@@ -130,7 +129,10 @@ class C04(Check):
                         res.mismatch({'g': peg.g_to_dict(g2), 'entry': sname, 'text': t, 'oracle': 'lengthen',
                                       'run': list(run)})
                         break
-        prop()
+        try:
+            prop()
+        except runner.StopTask:
+            pass
         return res
 
     def replay(self, case):
